@@ -468,6 +468,28 @@ impl Prop for C17 {
             if cf < 0 || ffb[..(cf as usize).min(64)] != rf[..rf.len().min(64)] {
                 return ctx.fail("C17/ff-tokens-differ", || tag(format!("ff tokens C={:?} Rust={:?}", &ffb[..(cf.max(0) as usize).min(64)], rf)));
             }
+            // the same query into buffers that are shorter than the forced sequence: only `output_len` tokens may be
+            // written (guard words on both sides), the count is the clamped one
+            if !rf.is_empty() {
+                for l in [0usize, 1, rf.len() - 1] {
+                    if l >= rf.len() {
+                        continue;
+                    }
+                    let mut gb = vec![CANARY; 4 + l + 8];
+                    for w in gb[4..4 + l].iter_mut() {
+                        *w = 0;
+                    }
+                    let cf2 = unsafe { llg_matcher_compute_ff_tokens(cmr(), gb.as_mut_ptr().add(4), l) };
+                    ctx.eval(1);
+                    ctx.class("ff_tokens_into_short_buffer");
+                    if gb[..4].iter().chain(gb[4 + l..].iter()).any(|w| *w != CANARY) {
+                        return ctx.fail("C17/ff-tokens-written-outside-buffer", || tag(format!("llg_matcher_compute_ff_tokens(output_len={}) with {} forced tokens wrote outside the caller's buffer: {:x?}", l, rf.len(), gb)));
+                    }
+                    if cf2 != l as i32 || gb[4..4 + l] != rf[..l] {
+                        return ctx.fail("C17/ff-tokens-differ", || tag(format!("llg_matcher_compute_ff_tokens(output_len={}) returned {} and wrote {:?}; Rust ff tokens {:?}", l, cf2, &gb[4..4 + l], rf)));
+                    }
+                }
+            }
             // rollback round trip every few steps
             if si % 4 == 3 && !mt.is_empty() {
                 let k = 1 + frac(st.pick, mt.len());
